@@ -37,7 +37,7 @@ package owa
 //@             && model.fractionOf(result.(model.WeightType).Weights[criterion.Id], (*params.(owaParams).Weights)[k].Weight)
 
 //@ func _sortWeightsMutate
-//@   property C03 C07 C20
+//@   property C03 C07 C20 C18
 //@   assigns *weights
 //@   ensures [same_length] len(*weights) == old(len(*weights)) && *weights == old(*weights)
 //@   ensures [ascending] forall i int, j int :: 0 <= i && i < j && j < len(*weights) ==> (*weights)[i].Weight <= (*weights)[j].Weight
@@ -45,7 +45,7 @@ package owa
 //@   ensures [all_present] forall j int :: 0 <= j && j < len(*weights) ==> exists k int :: 0 <= k && k < len(*weights) && (*weights)[k] == old((*weights)[j])
 
 //@ func addCriteria
-//@   property C07 C03 C20
+//@   property C07 C03 C20 C18
 //@   requires 0 <= offset && offset + len(*toAdd) <= len(*result) && *validationCache != nil && arr(*result) != arr(*toAdd)
 //@   assigns *result, *validationCache
 //@   ensures [copied] forall k int :: offset <= k && k < offset + len(*toAdd) ==> (*result)[k] == (*toAdd)[k - offset]
@@ -111,7 +111,7 @@ package owa
 
 // the parsed parameters: every criterion with exactly the weight the request gives it (no sign, no scaling)
 //@ func toArray
-//@   property C03 C20
+//@   property C03 C20 C07
 //@   ensures [weights_as_requested] result != nil && fresh(result) && fresh(*result) && forall k int :: 0 <= k && k < len(*criteria) && k < len(*result) ==>
 //@             (*result)[k].Criterion == (*criteria)[k] && (*result)[k].Weight == (*weights)[(*criteria)[k].Id]
 //@   loop 1 invariant [ctx] fresh(result)
@@ -123,10 +123,16 @@ package owa
 //@   ensures [one_weight_per_criterion_ascending] typeis(result, owaParams) && result.(owaParams).Weights != nil
 //@             && forall i int, j int :: 0 <= i && i < j && j < len(*result.(owaParams).Weights) ==> (*result.(owaParams).Weights)[i].Weight <= (*result.(owaParams).Weights)[j].Weight
 //@ func (*OWAPreferenceFunc).Identifier
-//@   property C20
+//@   property C20 C03
 //@   nopanic
 //@   ensures [name] result == "owa"
 //@ func (*OWAPreferenceFunc).MethodParameters
-//@   property C20
+//@   property C20 C03
 //@   nopanic
 //@   ensures [schema_of_the_weights_parameter] typeis(result, model.WeightType)
+
+// ---- wire format: the JSON names under which requests are read and responses are written (struct tags; encoding/json
+// itself is outside the verified code).  A renamed or omitempty field changes what a client sees without changing any Go value.
+//@ wire owaParams
+//@   property C01 C03 C20
+//@   json Weights=weights
